@@ -78,6 +78,10 @@ pub trait Obj: Send + Sync {
     fn internals(&self) -> Value {
         Value::Null
     }
+    /// a top-level field of the serialized form that holds unsigned integers
+    fn field(&self, _name: &'static str) -> Option<Vec<u64>> {
+        None
+    }
     /// run a borrowing iterator obtained by `m` (at `pos`) through the call word `ops`
     fn iter_run(&self, _m: &str, _pos: usize, _ops: &str) -> Option<Vec<Value>> {
         None
@@ -188,6 +192,10 @@ fn de_of<S: DeserializeOwned + Obj + 'static>(b: &[u8]) -> Result<Box<dyn Obj>, 
     }
 }
 
+fn field_of<S: Serialize>(s: &S, name: &'static str) -> Option<Vec<u64>> {
+    guard(|| crate::grab::grab_field(s, name)).ok().flatten()
+}
+
 fn internals_of<S: Serialize>(s: &S) -> Value {
     guard(|| serde_json::to_value(s).unwrap_or(Value::Null)).unwrap_or(Value::Null)
 }
@@ -287,6 +295,9 @@ macro_rules! tree_obj {
             }
             fn internals(&self) -> Value {
                 internals_of(self)
+            }
+            fn field(&self, name: &'static str) -> Option<Vec<u64>> {
+                field_of(self, name)
             }
             fn iter_run(&self, m: &str, _pos: usize, ops: &str) -> Option<Vec<Value>> {
                 match m {
